@@ -2,5 +2,6 @@
 package mon
 
 import (
+	_ "verifharness/mon/c18"
 	_ "verifharness/mon/c20"
 )
